@@ -20,6 +20,8 @@ PID = "C06"
 KINDS = {"d:ax", "d:yx", "d:ux", "d:uy", "d:inc", "if", "while", "forin", "break", "continue", "return"}
 # a parameter re-assigned on some paths and then used; a conditional expression (a temporary assigned in two arms)
 KINDS_EXTRA = {"d:ac", "d:yc", "d:cond", "d:ux", "d:yx", "if", "return"}
+# an arm that only holds `pass`: definitions made before the branch reach the join through a statement that defines and uses nothing
+KINDS_PASS = {"d:ax", "d:yx", "d:ux", "d:pass", "if", "return"}
 PER_UNIT = 120
 CASES_PER_TLC = 800
 
@@ -29,9 +31,10 @@ def universe(tier, seed):
     small = S.enumerate_methods(3, 3, KINDS)
     nxt = [b for b in S.enumerate_methods(4, 3, KINDS) if S.size_of_body(b) == 4]
     extra = [b for b in S.enumerate_methods(4, 2, KINDS_EXTRA) if {"d:ac", "d:yc", "d:cond"} & {"d:" + st[1] for st in _flat(b) if st[0] == "d"}]
+    passes = [b for b in S.enumerate_methods(4, 2, KINDS_PASS) if "d:pass" in {"d:" + st[1] for st in _flat(b) if st[0] == "d"}]
     if tier == "quick":
-        return small + extra + rng.sample(nxt, 500)
-    small = small + extra
+        return small + extra + rng.sample(passes, min(len(passes), 400)) + rng.sample(nxt, 500)
+    small = small + extra + passes
     five = [b for b in S.enumerate_methods(5, 2, {"d:ax", "d:yx", "d:ux", "if", "while", "break", "continue"}) if S.size_of_body(b) == 5]
     return small + nxt + rng.sample(five, min(len(five), 4000))
 
